@@ -25,4 +25,8 @@ def run(tier, seed, only):
                           funcs=["split2", "edist_serial", "cmp_floats", "alloc_kmeans_result"], cost=ns * 100,
                           bound="%d indistinguishable samples, %d anchors, seed %d; common distance vector symbolic; refinement loop proved to stop within 3 rounds" % (ns, na, seed),
                           desc="k-means split of indistinguishable sequences yields two non-empty halves"))
+    # identical copies go through the profile kernels from the third copy on: those kernels equal the sequence-sequence
+    # kernel (whose diagonal result is decided above) step by step - C07's kernel differential
+    import dataclasses
+    insts += [dataclasses.replace(i, ob="O1") for i in C07.kdiff_instances(tier) if "_sp2_" in i.name or tier != "quick"]
     return C07.combine("C08", tier, seed, only, rc, insts, META)
